@@ -85,6 +85,7 @@ type G struct {
 
 type State struct {
 	pc      []*Term
+	facts   map[*Term]bool
 	nextID  int
 	gs      []*G
 	timers  []*TimerObj
